@@ -233,6 +233,28 @@ def scrambleNaNFolded (S : FS) (c : Idx) : Bool :=
 def scramble (mc : Bool) (S : FS) : FS :=
   if S.folded then foldCore (scrambleCore mc (unfoldCore S)) else scrambleCore mc S
 
+/-! ### one-axis projection (`Spectrum._project_one_axis`), needed to state "commutes with projection" -/
+
+/-- `_cached_projection(proj_to=m, proj_from=n, hits=h)[j]` on the slice `least..most` the code uses, 0 outside:
+    C(m,j)·C(n−m,h−j)/C(n,h) -/
+def projW (n m h j : Nat) : Rat :=
+  if m - (n - h) ≤ j ∧ j ≤ min h m then ((chooseN m j * chooseN (n - m) (h - j) : Nat) : Rat) / ((chooseN n h : Nat) : Rat) else 0
+
+/-- `fs._project_one_axis(m, axis=k)`: raw data are combined (also under the mask); a cell is masked iff one of the
+    source slices that reach it is; the result is a fresh unfolded, unlabelled Spectrum without corner masking -/
+def projectAxis (k m : Nat) (S : FS) : FS :=
+  let nk := S.shape.getD k 0
+  { shape := S.shape.set k (m + 1)
+    dat := fun j => ((List.range nk).map fun h => projW (nk - 1) m h (j.getD k 0) * S.dat (j.set k h)).sum
+    msk := fun j => (List.range nk).any fun h =>
+      decide (m - (nk - 1 - h) ≤ j.getD k 0 ∧ j.getD k 0 ≤ min h m) && S.msk (j.set k h)
+    folded := false
+    labels := none }
+
+/-- `none` = ValueError (axis out of range or target larger than the sample size) -/
+def projectOne (k m : Nat) (S : FS) : Option FS :=
+  if k < S.ndim ∧ m + 1 ≤ S.shape.getD k 0 then some (projectAxis k m S) else none
+
 /-! ### Misc.combine_pops (older 2-D / 3-D routine), interpreted from the GENERATED dispatch table -/
 
 def sumAt (vars : Idx) (ks : List Nat) : Nat := (ks.map fun k => vars.getD k 0).sum
